@@ -1881,6 +1881,136 @@ func bucketCase(c *core.Ctx, r *rand.Rand, tier string, viaV1 bool) {
 	runBucket(c, r, blockSize, keys, vals, groups, viaV1, 14)
 }
 
+// blockSplitSizes / blockSplitCase (round 12): the block splitting of TrieBucketBuilder.Write at every
+// key count RELATIVE TO THE BLOCK SIZE. Block size and number of full blocks are fixed by case index
+// (k%len(sizes), 1 + k/len(sizes)%3), and EVERY remainder of the directed list (0, 1, 2, and the
+// fractions blockSize/16, /8, /4, /3, /2 each -1 / exact / +1, blockSize-2, blockSize-1; for block sizes
+// <= 9 that is every remainder) is run in that case: n = q*blockSize + rem keys either as ONE flush (the
+// builder cuts it) or as q+1.. small flushes that TrieBucket.Write (the merge) rebuilds through the
+// builder, directly or through index/v1's flusher; half of the remainders each way, the other half in the
+// case with the same block size and the next q. Also n <= blockSize (q = 0) for rem = 1, blockSize-1.
+var blockSplitSizes = []int{2, 3, 4, 5, 7, 8, 9, 16, 17, 24, 32, 40, 64, 100}
+
+func blockSplitRems(bs int) []int {
+	cand := []int{0, 1, 2, bs / 16, bs/8 - 1, bs / 8, bs/8 + 1, bs/4 - 1, bs / 4, bs/4 + 1, bs / 3, bs/2 - 1, bs / 2, bs/2 + 1, bs - 2, bs - 1}
+	seen := map[int]bool{}
+	var out []int
+	for _, x := range cand {
+		if x >= 0 && x < bs && !seen[x] {
+			seen[x] = true
+			out = append(out, x)
+		}
+	}
+	sort.Ints(out)
+	return out
+}
+
+func blockSizesInOrder(block []byte) (sizes []int) {
+	b := block
+	for len(b) >= 8 {
+		sz := binary.LittleEndian.Uint32(b[:4])
+		sizes = append(sizes, int(binary.LittleEndian.Uint32(b[4:8])))
+		if int(4+sz) > len(b) {
+			break
+		}
+		b = b[4+sz:]
+	}
+	return
+}
+
+func blockSplitCase(c *core.Ctx, r *rand.Rand, k int) {
+	bs := blockSplitSizes[k%len(blockSplitSizes)]
+	round := k / len(blockSplitSizes)
+	q := 1 + round%3
+	c.Branch(fmt.Sprintf("block-split-bs-%d", bs))
+	pool, _ := genKeys(r, "quick", false)
+	if len(pool) > 0 && len(pool[0]) == 0 {
+		pool = pool[1:]
+	}
+	type job struct{ n, mode int }
+	var jobs []job
+	for j, rem := range blockSplitRems(bs) {
+		jobs = append(jobs, job{q*bs + rem, (j + round) % 2})
+	}
+	jobs = append(jobs, job{1, round % 2}, job{bs - 1, (round + 1) % 2}, job{bs, round % 2})
+	for _, jb := range jobs {
+		n := jb.n
+		if n <= 0 {
+			continue
+		}
+		keys := append([][]byte{}, pool...)
+		for len(keys) < n {
+			keys = append(keys, []byte(fmt.Sprintf("zz-extra-%04d", len(keys))))
+		}
+		r.Shuffle(len(keys), func(a, b int) { keys[a], keys[b] = keys[b], keys[a] })
+		keys = keys[:n]
+		sort.Slice(keys, func(a, b int) bool { return bytes.Compare(keys[a], keys[b]) < 0 })
+		vals := genVals(r, n)
+		// (1) the split itself: sizes of the tries in WRITTEN order
+		func() {
+			ks := make([][]byte, n)
+			ids := make([]uint32, n)
+			for j, i := range r.Perm(n) {
+				ks[j], ids[j] = clone(keys[i]), vals[i]
+			}
+			var buf bytes.Buffer
+			var sizes []int
+			c.Guard(fmt.Sprintf("bsplit %d %d", bs, n), func() string {
+				if err := model.NewTrieBucketBuilder(bs, &buf).Write(ks, ids); err != nil {
+					return "write-error"
+				}
+				sizes = blockSizesInOrder(buf.Bytes())
+				return showInts(sizes)
+			})
+			sum := 0
+			bad := false
+			for j, x := range sizes {
+				sum += x
+				if x < 1 || x > bs || (j < len(sizes)-1 && x != bs) {
+					bad = true
+				}
+			}
+			if sum != n || bad {
+				c.Fail("bucket-blocks-not-a-partition", fmt.Sprintf("TrieBucketBuilder(blockSize=%d).Write(%d keys) wrote tries of %s keys (sum %d): not %d keys in full blocks + one remainder", bs, n, showInts(sizes), sum, n))
+			}
+		}()
+		// (2) the dictionary behind it: one flush, or small flushes rebuilt by the merge
+		perm := r.Perm(n)
+		var groups [][]int
+		if jb.mode == 0 || bs < 2 || n < 2 {
+			groups = [][]int{perm}
+			c.Branch("block-split-one-flush")
+		} else {
+			// every flush below the block size => all of them pending => the merge rebuilds n keys
+			for len(perm) > 0 {
+				m := 1 + r.Intn(bs-1)
+				if m > len(perm) {
+					m = len(perm)
+				}
+				groups = append(groups, perm[:m])
+				perm = perm[m:]
+			}
+			c.Branch("block-split-merge-rebuild")
+		}
+		rem := n % bs
+		switch {
+		case n <= bs:
+			c.Branch("block-split-n-le-blocksize")
+		case rem == 0:
+			c.Branch("block-split-rem-0")
+		case rem == bs/8:
+			c.Branch("block-split-rem-eq-eighth")
+		case rem < bs/8:
+			c.Branch("block-split-rem-below-eighth")
+		case rem*2 < bs:
+			c.Branch("block-split-rem-below-half")
+		default:
+			c.Branch("block-split-rem-upper-half")
+		}
+		runBucket(c, r, bs, keys, vals, groups, jb.mode == 0 && n%3 == 0, 6)
+	}
+}
+
 // fullTrieMergeCase (thorough tier): the block size the index merger really works with
 // (math.MaxUint16): one flush of more than 65535 keys (=> one full trie + a remainder) and two or
 // three small flushes, merged through index/v1's merger.
@@ -2600,6 +2730,8 @@ func (area) Run(c *core.Ctx) error {
 			trieCase(c, r, keys, vals, genProbes(r, keys, 16), true)
 		case i%40 == 34:
 			wideLastNodeCase(c, r, i/40)
+		case i%40 == 24:
+			blockSplitCase(c, r, i/40)
 		case i%10 == 6 && i%20 == 6:
 			kvstoreCase(c, r)
 		case c.Tier == "thorough" && i%1000 == 501:
